@@ -68,6 +68,9 @@ SCENARIOS = {
     'scopes_survive_global': dict(scripts={'c1': [('activate', 'm1'), ('activate', 'm2:_p1'), ('activate', None), ('deactivate', None)],
                                            'c2': [('activate', None)]},
                                   updaters=[[('m1', 'p1'), ('m2', 'p1'), ('m1', 'p2'), ('m2', 'p1')]]),
+    'disconnect_vs_new_scope': dict(scripts={'c1': [('activate', None), ('activate', 'm1'), ('disconnect', None)],
+                                             'c2': [('activate', 'm2:_p1'), ('activate', 'm2')]},
+                                    updaters=[[('m1', 'p1'), ('m2', 'p1')]]),
     'two_scopes': dict(scripts={'c1': [('activate', None), ('activate', P1), ('deactivate', None)]},
                        updaters=[[('m1', 'p1'), ('m1', 'p1')]]),
 }
@@ -101,11 +104,11 @@ def _explore(args):
 
         for s in ds.explore(lambda st: Run(run_scenario(sc, st, line_level)), max_preemptions=2 if mode == 'dfs' else 1,
                             max_runs=nruns):
-            out.append((s.res['choices'], alpha(s.res)))
+            out.append((s.res['choices'], alpha(s.res), line_level))
     else:
         for k in range(nruns):
             r = run_scenario(sc, ds.RandomStrategy(seed * 7919 + k, stay=0.2 + 0.3 * ((seed + k) % 3)), line_level)
-            out.append((r['choices'], alpha(r)))
+            out.append((r['choices'], alpha(r), line_level))
     return name, out
 
 
@@ -137,15 +140,19 @@ def run(chk):
         if 'disconnect' in name or name == 'ident':
             # disconnects are handled outside the dispatcher lock: every source line is a preemption point
             jobs.append((name, 'dfs1', chk.seed, 400 if quick else 4000, True))
+            if quick:       # (thorough has line-level random schedules for every scenario)
+                jobs.append((name, 'rnd', chk.seed * 17 + 5, 200, True))
     results = pool_map(_explore, jobs, chunksize=1)
-    traces, origin, seen = [], [], set()
+    traces, origin, seen, lines = [], [], set(), {}
     for name, out in results:
-        for choices, tr in out:
+        for item in out:
+            choices, tr = item[0], item[1]
             k = (name, tuple(choices))
             if k not in seen:
                 seen.add(k)
                 traces.append(tr)
                 origin.append((name, choices))
+                lines[len(traces) - 1] = bool(item[2]) if len(item) > 2 else False
     verdicts, st, trn, extra = validate_traces('Trace_ActivationObs', traces, 'Trace_ActivationObs.cfg',
                                               timeout=1500, collect=('DEVS',))
     chk.states += st
@@ -164,12 +171,12 @@ def run(chk):
             l = v[0]
             ev = traces[i][l - 1] if 0 < l <= len(traces[i]) else {}
             sig = {'module': 'ActivationObs', 'event': ev.get('ev'), 'kind': ev.get('kind') or ev.get('by') or ev.get('what')}
-            chk.violation(sig, {'scenario': name, 'choices': choices, 'failed_at': l, 'event': ev, 'trace': traces[i]})
+            chk.violation(sig, {'scenario': name, 'choices': choices, 'line_level': lines.get(i, False), 'failed_at': l, 'event': ev, 'trace': traces[i]})
         else:
             for dev in sorted(devs.get(i, ())):
                 count[dev] = count.get(dev, 0) + 1
                 chk.violation({'module': 'ActivationObs', 'deviation': dev},
-                              {'scenario': name, 'choices': choices, 'trace': traces[i]})
+                              {'scenario': name, 'choices': choices, 'line_level': lines.get(i, False), 'trace': traces[i]})
     chk.notes['deviations_needed'] = count
     chk.notes['scenarios'] = {n: sum(1 for o in origin if o[0] == n) for n in SCENARIOS}
     if traces:
@@ -180,7 +187,7 @@ def replay(chk, rep):
     from .. import detsched as ds
     from ..dispworld import run_scenario
     d = rep['detail']
-    r = run_scenario(SCENARIOS[d['scenario']], ds.GuidedStrategy(d['choices']))
+    r = run_scenario(SCENARIOS[d['scenario']], ds.GuidedStrategy(d['choices']), bool(d.get('line_level')))
     for e in alpha(r):
         print(e)
     return 0
